@@ -55,6 +55,7 @@ struct Spec
   std::vector<std::pair<int, int>> oe; // equality requests between object variables
   std::vector<std::vector<int>> cl;    // clauses over signed slot numbers
   int depth = 0;                       // exploration depth for this network (0 = family default); not part of the text
+  std::string alphabet;                // operations explored on this network ("" = family default); not part of the text
 };
 struct Op
 {
@@ -894,6 +895,11 @@ static void enabled_ops(const Spec &s, const Net &n, const std::string &alphabet
         out.push_back(Op{'a', {-sl}});
       }
       break;
+    case 'A': // decisions on positive literals only
+      for (int sl = 1; sl <= nslots; ++sl)
+        if (n.sat.value(n.slot[sl]) == Undefined)
+          out.push_back(Op{'a', {sl}});
+      break;
     case 'p':
       if (!root)
         out.push_back(Op{'p', {}});
@@ -1130,7 +1136,7 @@ static void run_history(const Ctx &c, const std::vector<Op> &h, RunOut &out, boo
     vf::Arena::Pause p;
     out.state_hash = vf::fnv(st);
     if (want_enabled)
-      enabled_ops(s, n, g_alphabet, out.enabled, g_clause_pool);
+      enabled_ops(s, n, s.alphabet.empty() ? g_alphabet : s.alphabet, out.enabled, g_clause_pool);
   }
 }
 
@@ -1455,6 +1461,33 @@ static void families(const std::string &prop, const std::string &tier)
               for (auto i : idx)
                 r.ra.push_back(pool[i]);
               g_specs.push_back(r); });
+    // (R) relaxation networks: two bounds on a direct edge, a two-hop path whose length lies between them, a reverse
+    // edge and an atom it decides together with the direct edge; every single binary clause over the six atoms, so that
+    // several constraints are asserted inside one decision level and retracted together. Decisions assert atoms only
+    // (alphabet 'A' + pop), which keeps depth 5 (thorough 6) exhaustive.
+    {
+      std::vector<DAtom> atoms = {{1, 2, Q(4)}, {1, 2, Q(1)}, {1, 3, Q(1)}, {3, 2, Q(1)}, {2, 3, Q(-4)}, {1, 3, Q(0)}};
+      auto p2 = clause_pool(6, false);
+      for (auto &cl : p2)
+      {
+        if (cl.size() != 2)
+          continue;
+        Spec s;
+        s.nidl = 3;
+        s.ia = atoms;
+        s.cl.push_back(cl);
+        s.depth = th ? 6 : 5;
+        s.alphabet = "Ap";
+        g_specs.push_back(s);
+        Spec r;
+        r.nrdl = 3;
+        r.ra = atoms;
+        r.cl.push_back(cl);
+        r.depth = s.depth;
+        r.alphabet = "Ap";
+        g_specs.push_back(r);
+      }
+    }
     if (th)
     { // half-integer constants for RDL on a reduced pool
       std::vector<DAtom> hp;
